@@ -858,6 +858,8 @@ func c14Witnesses() []c14Witness {
 		{1, "witness:header-only", []byte("0 1\n1 1\n1 1\n")},
 		{1, "witness:no-final-newline", []byte("1 2\n1 1\n1 1\n\n1 1 0 1 INV")},
 		{1, "witness:one-more-gate", []byte("1 2\n1 1\n1 1\n\n1 1 0 1 INV\n1 1 0 1 INV\n")},
+		{1, "witness:and-input-is-own-output", []byte("1 3\n2 1 1\n1 1\n\n2 1 0 2 2 AND\n")},
+		{1, "witness:inv-input-is-own-output", []byte("2 4\n1 2\n1 1\n\n2 1 0 1 2 XOR\n1 1 3 3 INV\n")},
 		{1, "witness:huge-n1", []byte("1 2\n1 1\n1 1\n\n9223372036854775807 9223372036854775807 0 1 INV\n")},
 	}
 }
@@ -1114,6 +1116,59 @@ func runC14(c *Ctx) error {
 				kind += "+2"
 			}
 			offer(1, m, kind, validB[j])
+		}
+	}
+	// targeted field splicing (every seed): a gate's input field := that gate's own output id /
+	// a later gate's output id / an id that is never assigned, for gates at the start, middle, end
+	for i := 0; i < c.N(12, 200); i++ {
+		r := c.rng.Fork()
+		opts := GenOpts{MinIn: 2, MaxIn: 6, MinGates: 3, MaxGates: 14, MaxOut: 3}
+		if i%4 == 3 {
+			opts.MinGates, opts.MaxGates = 30, 60
+		}
+		base := GenCircuit(r, opts) // no overwrite: every gate output is a fresh wire
+		if i%5 == 4 {
+			base = c14InvOnly(r)
+		}
+		ng := len(base.Gates)
+		for _, gi := range []int{0, ng / 2, ng - 1} {
+			g := base.Gates[gi]
+			type tgt struct {
+				kind string
+				w    circuit.Wire
+				nw   int
+			}
+			tgts := []tgt{
+				{"own-output", g.Output, base.NumWires},
+				{"unassigned-out-of-range", circuit.Wire(base.NumWires), base.NumWires},
+				{"unassigned-in-range", circuit.Wire(base.NumWires), base.NumWires + 1},
+			}
+			if gi+1 < ng {
+				tgts = append(tgts, tgt{"later-output", base.Gates[gi+1+r.Intn(ng-gi-1)].Output, base.NumWires})
+			}
+			for _, t := range tgts {
+				for in := 0; in < 2; in++ {
+					if in == 1 && g.Op == circuit.INV {
+						continue
+					}
+					m := circuit.Circuit{NumGates: base.NumGates, NumWires: t.nw, Inputs: base.Inputs, Outputs: base.Outputs,
+						Gates: append([]circuit.Gate(nil), base.Gates...)}
+					if in == 0 {
+						m.Gates[gi].Input0 = t.w
+					} else {
+						m.Gates[gi].Input1 = t.w
+					}
+					pos := "middle"
+					if gi == 0 {
+						pos = "first"
+					} else if gi == ng-1 {
+						pos = "last"
+					}
+					kind := fmt.Sprintf("gate-input:=%s:%s:in%d", t.kind, pos, in)
+					offer(0, c14Marshal(0, &m), kind, c14Marshal(0, base))
+					offer(1, c14Marshal(1, &m), kind, c14Marshal(1, base))
+				}
+			}
 		}
 	}
 	// hand-written witnesses (the Coq `_refuted` witnesses are among them)
